@@ -32,3 +32,8 @@ package helpers
 //@   pure
 //@ func FilterAttrs(attrs, key) (r)
 //@   pure
+
+//@ func GetBodyNode() (r)
+//@   modifies nothing
+//@   trusted
+//@   ensures r != nil
